@@ -280,6 +280,55 @@ def bounded(check, tier):
     s.done()
 
 
+def find_key_probe():
+    """the REAL Input._send.find_key (buffer filled directly, no I/O) against the reference cut `drive` on two-item streams: the
+    failing input for a refuted obligation of contracts/findkey.py, if there is one"""
+    from locale import getpreferredencoding
+    from curtsies.input import Input
+    enc = getpreferredencoding()
+    allkeys = sorted(set(EV.CURTSIES_NAMES) | set(EV.CURSES_NAMES))
+    followers = [b"a", b"\x1b[A", b"\x1bOP", b"~", b"\x1b", "\u00e9".encode("utf-8"), b"\x1b[15~x"]
+    out = []
+    for k1 in allkeys[::4] + [b"a", b"ab", "\u20ac".encode("utf-8")]:
+        for k2 in followers:
+            stream = k1 + k2
+            want, werr = drive(stream, enc, EV.Keynames.BYTES)
+            inp = Input.__new__(Input)
+            inp.__dict__.update(sigints=[], queued_events=[], queued_interrupting_events=[], queued_scheduled_events=[],
+                                keynames=EV.Keynames.BYTES, paste_threshold=None)
+            inp.unprocessed_bytes = [stream[i:i + 1] for i in range(len(stream))]
+            got, gerr = [], None
+            while inp.unprocessed_bytes:
+                before = b"".join(inp.unprocessed_bytes)
+                try:
+                    e = inp._send(0)
+                except Exception as ex:     # noqa: BLE001
+                    gerr = type(ex).__name__
+                    break
+                after = b"".join(inp.unprocessed_bytes)
+                got.append((before[:len(before) - len(after)], e))
+                if not before.endswith(after):
+                    gerr = f"buffer {before!r} -> {after!r} is not a suffix"
+                    break
+            if (werr is None) != (gerr is None) or (werr is None and got != want):
+                out.append(("C03.find_key", dict(stream=stream.hex(), encoding=enc), f"find_key cuts {stream!r} into {got} ({gerr}); the decoder driven byte by byte gives {want} ({werr})"))
+                if len(out) >= 3:
+                    return out
+    return out
+
+
+def attach_probes():
+    import contracts.findkey as FK
+    FK.find_key.probe = find_key_probe
+
+
 def run(check, tier, seed):
     deductive(check, tier)
+    import contracts.findkey as FK
+    attach_probes()
+    verify(FK.find_key, tier, check, prefix="C03")
+    check.assume("stream level (deductive): Input._send.find_key consumes a non-empty prefix of the buffered bytes, never loses, duplicates "
+                 "or reorders a byte, returns the decoder's answer for exactly the consumed bytes, cuts at the first recognised prefix, "
+                 "returns None only for an empty buffer and raises only when no prefix is recognised (contracts/findkey.py); the decoder "
+                 "itself through its per-call contract")
     bounded(check, tier)
